@@ -1,8 +1,11 @@
 import PyamgV.Props.Restate
 import PyamgV.Proofs.C07Vec
+import PyamgV.Proofs.C07Cert
 import PyamgV.Model.C07Example
+import PyamgV.Proofs.C07GmresKry
 import PyamgV.Proofs.GmresGivens
 import PyamgV.Proofs.ArnoldiStep
+import Mathlib.Analysis.Real.Sqrt
 
 /-! # C07 — Krylov iterates are the optimal elements of the Krylov space
 
@@ -16,7 +19,11 @@ theorems is about **exactly those definitions on exactly that instance** (`cgVec
 they are carried onto the abstract sequences of `Proofs/PCG.lean` / `KrylovSim.lean` by
 `Proofs/C07Refine.lean` (module instance, `r = b − A x` invariant for the periodic recomputation)
 and `Proofs/C07Vec.lean` (every `Vector` operation commutes with `toFn`).
-The GMRES family is covered at the algorithmic level only (abstract Arnoldi data + Givens sweep). -/
+GMRES with modified Gram–Schmidt has an executable model too (`Model/C07Gmres.lean`: Arnoldi/MGS, incremental
+Givens rotations, back substitution; run by the driver in binary64, op `c07_gmres_mgs`) and is proved
+residual-optimal over the preconditioned Krylov space, end to end, over ordered fields with an exact square
+root (`gmres_mgs_optimal_krylov`); the
+Householder variants are covered at the algorithmic level only (abstract Arnoldi data + Givens sweep). -/
 namespace PyamgV.Props.C07
 open PyamgV
 
@@ -40,6 +47,11 @@ restate sd_exact_line_search := PyamgV.C07.sd_vec_step_optimal
 /-- minimal residual: every step is the exact line search for `‖M(b − A x)‖₂` along `M r` -/
 restate mr_exact_line_search := PyamgV.C07.mr_vec_step_optimal
 
+/-! ### the oracle of the failing-input search is itself checked: an accepted certificate `(d, y)`
+(`y = x0 + Σ d_i v_i`, `G (t − y) ⟂ v_i`, decided exactly by `certV` in the driver) is the minimiser of
+`(t − ·)ᵀ G (t − ·)` over `x0 + span{v_i}` for symmetric positive semidefinite `G` -/
+restate argmin_certificate_sound := PyamgV.C07.certV_sound
+
 /-! ### the links: model ⇄ abstract sequence (including the periodic `r = b − A x` recomputation) -/
 restate cg_model_is_pcg := PyamgV.C07.cg_refines
 restate cgnr_model_is_nrSeq := PyamgV.C07.cgnr_refines
@@ -57,6 +69,21 @@ restate pcg_solves := PyamgV.PCG.pcg_solves
 restate petrov_optimal := PyamgV.petrov_optimal
 restate petrov_monotone := PyamgV.petrov_monotone
 restate line_search_orth := PyamgV.line_search_orth
+
+/-! ### GMRES with modified Gram–Schmidt: the executable model `gmresStep` of `_gmres_mgs.py` -/
+/-- every state of the model carries an orthonormal-or-zero basis and Hessenberg columns with
+`(MA) v_i = Σ_l H_{l i} v_l`, also through a breakdown -/
+restate gmres_mgs_arnoldi_invariant := PyamgV.C07.gmres_model_arnoldi
+/-- the Givens bookkeeping: stored columns are `Q_{i+1} h_i`, `g = Q_k (β e₀)`, unit rotations, zeroed subdiagonal -/
+restate gmres_mgs_givens_invariant := PyamgV.C07.givInv_all
+/-- after `m+1 < n` inner iterations without breakdown the recorded iterate minimises `‖M(b − A x)‖₂` over
+`x₀ + span{v_0 … v_m}` (the Arnoldi basis of the preconditioned Krylov space) -/
+restate gmres_mgs_optimal := PyamgV.C07.gmres_mgs_model_optimal
+/-- without breakdown the Arnoldi basis spans the preconditioned Krylov space: `span{v_0 … v_m} = K_{m+1}(MA, M r₀)` -/
+restate gmres_mgs_basis_spans_krylov := PyamgV.C07.gmres_basis_span
+/-- C07 for GMRES(MGS) as stated: the iterate lies in `x₀ + K_{m+1}(MA, M r₀)` and minimises the 2-norm of the
+left-preconditioned residual over it -/
+restate gmres_mgs_optimal_krylov := PyamgV.C07.gmres_mgs_model_optimal_krylov
 
 /-! ### GMRES (both orthogonalisations) and FGMRES, algorithmic level
 orthonormal Arnoldi basis + Arnoldi relation + unit Givens rotations zeroing the subdiagonal +
@@ -99,5 +126,9 @@ example : (cgVec A₀ M₀ b₀ z₀ 0).rz ≠ 0 ∧ (cgVec A₀ M₀ b₀ z₀ 
     (cgVec A₀ M₀ b₀ z₀ 1).x ≠ (cgVec A₀ M₀ b₀ z₀ 2).x ∧
     (cgVec A₀ M₀ b₀ z₀ 2).x = #v[3/5, -1/5] ∧ vmv A₀ (#v[3/5, -1/5] : Vector Rat 2) = b₀ := cg_two_steps
 end example2
+
+/-- the square-root hypotheses of the GMRES theorems are satisfiable (over `ℝ`) -/
+example : ∃ sqrt : ℝ → ℝ, (∀ a, 0 ≤ a → sqrt a * sqrt a = a) ∧ (∀ a, 0 ≤ sqrt a) :=
+  ⟨Real.sqrt, fun _ h => Real.mul_self_sqrt h, Real.sqrt_nonneg⟩
 
 end PyamgV.Props.C07
